@@ -373,12 +373,14 @@ func checkFailCase(ctx *core.Ctx, c *Case) {
 	}
 }
 
-// compareFailModel ties the two error texts that render a flag value to the model.
+// compareFailModel ties the two error texts that render a flag value, and the debug record
+// "loading TLS certificate" where the start-up got that far, to the model.
 func compareFailModel(ctx *core.Ctx, c *Case, k int, o *failObservation, p *plan) {
 	set := map[string]setting{}
 	for _, st := range p.Settings {
 		set[st.Flag] = st
 	}
+	compareTLSLoad(ctx, c, parseRecords(c.Format, o.Log), p, false)
 	if flag := rejectedFlag(c); flag != "" {
 		st := set[flag]
 		src := sourceOf(c, flag)
